@@ -10,8 +10,8 @@ PROPS = {
         title="FFT64 negacyclic product is exact within the documented precision budget",
         module="SpqProofs.Properties.C01",
         extra_modules=["SpqProofs.Properties.Closed", "SpqProofs.Properties.C01Err"],
-        streams=dict(quick=[("md_model", "plain"), ("md_prod", "plain"), ("md_prog", "plain")],
-                     thorough=[("md_model", "plain"), ("md_prod", "plain"), ("md_prog", "plain")]),
+        streams=dict(quick=[("md_model", "plain"), ("md_prod", "plain"), ("md_prog", "plain"), ("md_vmp", "plain"), ("ff_tables", "plain")],
+                     thorough=[("md_model", "plain"), ("md_prod", "plain"), ("md_prog", "plain"), ("md_vmp", "plain"), ("ff_tables", "plain")]),
         proved="exact-arithmetic part (product_exact_arith, rows_zero) on the module-level model instantiated with a commutative ring: "
                "eval_nmul (evaluation at any z with z^N = -1 is multiplicative for the negacyclic coefficient formula, every N, every commutative ring); "
                "reim_eval (N = 2m real coefficients at z with z^m = i = the m complex numbers a_k + i a_{k+m}); "
@@ -40,8 +40,8 @@ PROPS = {
         title="Vector-matrix product (VMP) equals the naive polynomial product for all shapes",
         module="SpqProofs.Properties.C02",
         extra_modules=["SpqProofs.Properties.Closed", "SpqProofs.Properties.C02Err"],
-        streams=dict(quick=[("md_model", "plain"), ("md_vmp", "plain"), ("md_prog", "plain")],
-                     thorough=[("md_model", "plain"), ("md_vmp", "plain"), ("md_prog", "plain")]),
+        streams=dict(quick=[("md_model", "plain"), ("md_vmp", "plain"), ("md_prog", "plain"), ("ff_tables", "plain")],
+                     thorough=[("md_model", "plain"), ("md_vmp", "plain"), ("md_prog", "plain"), ("ff_tables", "plain")]),
         proved="vmp_layout (layout_inverse): for ANY fft/fromZnx, in exact arithmetic, vmp_apply_dft_to_dft(vmp_prepare(M)) column j < min(ncols, rsz), "
                "complex t = sum_{i < min(nrows, asz)} adft_i[t] * fft(M[i][j])[t], columns >= min(ncols, rsz) exactly zero, output size rsz*nn; both prepared "
                "layouts (nn >= 8: reim4 blocks, column pairs, lone last column, last computed column half of a pair; nn < 8: column-major), both vmpAvx flavours, "
@@ -80,10 +80,10 @@ PROPS = {
         title="q120 lazy modular arithmetic never wraps 64 bits on any in-range operand",
         module="SpqProofs.Properties.C04",
         gen=["q120", "q120ntt"],
-        streams=dict(quick=[("qn_stages", "plain"), ("qn_ntt", "plain"), ("q1_prod", "plain")],
-                     thorough=[("qn_stages", "plain"), ("qn_ntt", "plain"), ("q1_prod", "plain"), ("qn_ntt", "asan"), ("q1_prod", "asan")]),
+        streams=dict(quick=[("qn_stages", "plain"), ("qn_ntt", "plain"), ("q1_prod", "plain"), ("cv_naive", "plain")],
+                     thorough=[("qn_stages", "plain"), ("qn_ntt", "plain"), ("q1_prod", "plain"), ("qn_ntt", "asan"), ("q1_prod", "asan"), ("cv_naive", "plain")]),
         variants={"plain": None, "asan": None},
-        proved="symbolic soundness of the per-level exact-interval certificate (any metadata, any number of levels) and of the two-accumulator product kernels (any length <= N under decidable bound predicates); kernel-decided on the metadata / split points / primes / MAX_ELL read back from the live objects every run: NTT and iNTT never wrap for n = 2^1..2^16 on arbitrary 64-bit lanes and are congruent to the exact transform; products never wrap for ell <= 10000 on every in-layout operand, every mul_epu32 operand fits 32 bits, AVX2 = reference word for word",
+        proved="symbolic soundness of the per-level exact-interval certificate (any metadata, any number of levels) and of the two-accumulator product kernels (any length <= N under decidable bound predicates); kernel-decided on the metadata / split points / primes / MAX_ELL read back from the live objects every run: NTT and iNTT never wrap for n = 2^1..2^16 on arbitrary 64-bit lanes and are congruent to the exact transform; products are exact modulo each prime (the accumulator and 32-bit-operand invariants are lemmas in C04Products, exported through the congruence theorems, not separate property statements) for ell <= 10000 on every in-layout operand, every mul_epu32 operand fits 32 bits, AVX2 = reference word for word",
         not_proved="the 4 AVX2 lanes are modelled as 4 independent scalar lanes and the reference j-inner loop as lane-wise folds (tied bit-exactly by the streams on worst-case operands and by per-stage maxima in qn_stages); 29/31-bit prime builds are informational only (agent D confirmed on the real code that the 31-bit set breaks the AVX2 a*a kernel and makes baaAvxOK fail)",
         level_text="Lean 4 theorems (certificate soundness by induction on the level list; accumulator invariants by induction on the terms) + kernel-decided obligations on constants regenerated from the live library every run; raw-lane bit-exact correspondence on extremal operands and per-stage maxima",
         design_ref="DESIGN.md §5 C04",
@@ -119,7 +119,7 @@ PROPS = {
         gen=["dispatch"],
         streams=dict(quick=[("vz_box", "plain"), ("r4_layout", "plain"), ("r4_arith", "plain"), ("q1_prod", "plain"), ("ff_fft", "plain"), ("md_model", "plain"), ("md_prod", "plain"), ("md_vmp", "plain"), ("cv_rnx", "plain"), ("cv_cplxvec", "plain"), ("big_align", "plain")],
                      thorough=[("vz_box", "plain"), ("r4_layout", "plain"), ("r4_arith", "plain"), ("q1_prod", "plain"), ("ff_fft", "plain"), ("md_model", "plain"), ("md_prod", "plain"), ("md_vmp", "plain"), ("cv_rnx", "plain"), ("cv_cplxvec", "plain"), ("big_align", "plain")]),
-        proved="Gen obligation: every kernel the live library installs (every constructor and module-table entry, 5 CPU masks, m = 2^0..2^16) belongs to its listed equivalence class; integer AVX loops = reference for every power-of-two dimension; family theorems imported: reim4/reim/cplx products ref = avx2/fma/sse/avx512 in exact arithmetic and layout kernels equal (C17), q120 AVX2 = reference word for word (C10/C04)",
+        proved="Gen obligation: every kernel the live library installs (every constructor and module-table entry, 5 CPU masks, m = 2^0..2^16) belongs to its listed equivalence class; integer AVX loops (hand model Spq.CoeffsAvx, which no stream executes: the _avx kernels are streamed against the reference model) = reference model for every power-of-two dimension; family theorems imported: reim4/reim/cplx products ref = avx2/fma/sse/avx512 in exact arithmetic and layout kernels equal (C17), q120 AVX2 = reference word for word (theorems of C10/C04, which are obligations of those checks, not of this one)",
         not_proved="float kernels of different variants differ by rounding: each variant is tied bit-exactly to its own model and to the exact-arithmetic definition, not to each other; AVX-512 FFT (cplx_fft_avx512) is not reached by any constructor on this dispatch table and is not modelled",
         level_text="kernel-decided dispatch-closure obligation on the table read back from the live library + Lean equivalence theorems per kernel family + pairwise bit-exact correspondence under both dispatch masks",
         design_ref="DESIGN.md §5 C07",
@@ -141,11 +141,11 @@ PROPS = {
         title="Rotation, automorphism and (X^p-1) product are the ring maps for every p",
         module="SpqProofs.Properties.C09",
         variants={"plain": None, "asan": None},
-        extra_modules=["SpqProofs.Properties.SrcRot"],
+        extra_modules=["SpqProofs.Properties.SrcRot", "SpqProofs.Properties.Bridge"],
         gen=["csrc"],   # tools/c2lean.py: spqlios/coeffs/coeffs_arithmetic.c -> lean/Gen/CSrc.lean (clang JSON AST -> Spq.CIR terms)
         streams=dict(quick=[("kz_probe", "plain"), ("kz_f64", "plain"), ("vz_box", "plain"), ("cs_rot", "plain")], thorough=[("kz_probe", "plain"), ("kz_f64", "plain"), ("vz_box", "plain"), ("md_prog", "plain"), ("cs_rot", "plain"), ("cs_rot", "asan")]),
         proved="rotate/mulxp/automorphism (out of place) equal the closed coefficient formulas of X^p·a, X^p·a − a, a(X^p) for every nn, every p in Z (automorphism: nn = 2^t, odd p; result independent of prior output); in-place rotation and (X^p−1) equal the out-of-place maps for EVERY nn and p with the model's fuel proved sufficient; in-place automorphism equals the out-of-place one for every nn = 2^t (t ≤ 64: the C contract) and odd p, via (Z/2^t)^× = <−1>×<5>; composition laws (additive / multiplicative mod 2N) SOURCE TIE (Properties/SrcRot.lean): the C source of znx/rnx rotate, mul_xp_minus_one, automorphism (out of place) and of the in-place rotate / mul_xp_minus_one cycle walks, translated on every run, is proved equal to the model functions for nn = 2^t, every p (termination of the do-while walks proved).",
-        not_proved="the bridge from the closed coefficient formulas to Mathlib's AdjoinRoot (X^N+1) is not formalised (the formulas are the textbook ones); double-precision variants are the same polymorphic definitions (tied by the probe stream on integer-valued doubles)",
+        not_proved="the closed coefficient formulas of rotation / automorphism / X^p-1 are tied to Mathlib's AdjoinRoot (X^N+1) in Properties/Bridge.lean (an obligation of this check); double-precision variants are the same polymorphic definitions (tied by the probe stream on integer-valued doubles)",
         level_text="Lean 4 theorems for all N and all p, including the in-place cycle-leader walks (termination proved) and the 2-adic orbit structure of the in-place automorphism; exhaustive injective-probe correspondence with the real int64 and double kernels",
         design_ref="DESIGN.md §5 C09",
         technique="Lean 4 proof (orbit/induction arguments, Mathlib ZMod units) + exhaustive probe correspondence",
@@ -179,7 +179,7 @@ PROPS = {
         variants={"plain": None, "asan": None},
         streams=dict(quick=[("mem_pairs", "asan"), ("vz_box", "asan"), ("vz_norm", "asan"), ("kz_probe", "asan"), ("kz_norm", "asan"), ("ca_prog", "asan"), ("md_prod", "asan"), ("md_vmp", "asan"), ("md_ntt", "asan"), ("cv_misc", "asan"), ("cv_rnx", "asan"), ("cv_cplxvec", "asan"), ("ca_small", "asan"), ("big_align", "asan"), ("cv_misc", "plain"), ("mh_arena", "plain"), ("mh_arena", "asan")],
                      thorough=[("mem_pairs", "asan"), ("vz_box", "asan"), ("vz_norm", "asan"), ("kz_probe", "asan"), ("kz_norm", "asan"), ("ca_prog", "asan"), ("md_prod", "asan"), ("md_vmp", "asan"), ("md_ntt", "asan"), ("cv_misc", "asan"), ("cv_rnx", "asan"), ("cv_cplxvec", "asan"), ("ca_small", "asan"), ("big_align", "asan"), ("cv_misc", "plain"), ("mh_arena", "plain"), ("mh_arena", "asan")]),
-        proved="index logic of every limb-vector operation: declared extents inside the heap imply no out-of-bounds access of the model (all shapes incl. zero limb counts), frame theorems (C18) bound the writes, scratch of the normalisation = one carry limb = *_tmp_bytes; Gen obligation: size formulas = live *_tmp_bytes / bytes_of_* values MODULE LAYER (Properties/ModHeap.lean, heap-level model Spq.ModuleHeap tied bit-exactly by stream mh_arena): for vec_znx_dft, vec_znx_idft (in place or not), idft_tmp_a, svp_prepare, svp_apply_dft, znx_small_single_product, vmp_prepare_contiguous, vmp_apply_dft_to_dft and vmp_apply_dft, for all nn, limb counts incl. 0, strides and matrix shapes: when the caller provides the regions of the C contract and exactly *_tmp_bytes(shape) bytes of scratch (formulas of Spq.TmpBytes = live values, Gen obligation), no access leaves the declared regions (ok flag kept), incl. the tmp_space split of vmp_apply_dft and the accumulator/extraction buffers of apply_dft_to_dft.",
+        proved="index logic of every limb-vector operation: declared extents inside the heap imply no out-of-bounds access of the model (all shapes incl. zero limb counts), frame theorems (C18) bound the writes, scratch of the normalisation = one carry limb = *_tmp_bytes; Gen obligation: size formulas = live *_tmp_bytes / bytes_of_* values over a shape box (nn in {2,4,8,16,64,4096,65536}, sizes in {0,1,2,5}) MODULE LAYER (Properties/ModHeap.lean, heap-level model Spq.ModuleHeap tied bit-exactly by stream mh_arena): for vec_znx_dft, vec_znx_idft (in place or not), idft_tmp_a, svp_prepare, svp_apply_dft, znx_small_single_product, vmp_prepare_contiguous, vmp_apply_dft_to_dft and vmp_apply_dft, for all nn, limb counts incl. 0, strides and matrix shapes: when the caller provides the regions of the C contract and exactly *_tmp_bytes(shape) bytes of scratch (formulas of Spq.TmpBytes = live values, Gen obligation), no access leaves the declared regions (ok flag kept), incl. the tmp_space split of vmp_apply_dft and the accumulator/extraction buffers of apply_dft_to_dft.",
         not_proved="runtime residue observed by ASan/UBSan-bounds/LSan on exactly-sized heap buffers, not proved: accesses inside float kernels and asm leaves, alloc/free pairing of new_*/delete_*, alignment, allocator overflow abort; inside the float kernels (conversion, fft, products) accesses are over-approximated to the whole limb/block they are given",
         level_text="Lean 4 theorems for the index logic (bounds flag, frame, scratch size) + kernel-decided size-formula obligation on live values; the memory-safety residue is tied by sanitizer builds on exact-size buffers (partial)",
         design_ref="DESIGN.md §5 C11",
@@ -192,8 +192,8 @@ PROPS = {
         variants={"plain": None, "tsan": None},
         streams=dict(quick=[("mt_module", "plain"), ("mt_module", "tsan"), ("ca_prog", "plain")],
                      thorough=[("mt_module", "plain"), ("mt_module", "tsan"), ("ca_prog", "plain")]),
-        proved="(1) read-only threads: for every interleaving the shared memory is unchanged and every thread observes what it observes solo; (2) Gen obligation re-decided by the kernel on every run: the call-graph closure (indirect calls over-approximated) of every exported const MODULE*/const *_PRECOMP* entry point references no shared mutable global; (3) warm-up: a *_simple call after a completed call with the same key performs no write to its cache",
-        not_proved="real weak-memory interleavings, compiler reordering and the first-use race of the *_simple functions are runtime behaviour: exhibited by the ThreadSanitizer stream (16 threads, fresh and warmed-up), not by a theorem; extraction of the call graph / global references from the object files is trusted",
+        proved="(1) read-only threads: for every interleaving the shared memory is unchanged and every thread observes what it observes solo; (2) Gen obligation re-decided by the kernel on every run: the call-graph closure (indirect calls over-approximated) of every exported const MODULE*/const *_PRECOMP* entry point references no shared mutable global; (3) warm-up: a *_simple call after a completed call with the same key performs no write to its cache; (4) shared_caches_keyed_by_dimension_only: every convenience cache that is not thread-local is keyed by the dimension alone (kernel-decided on the extracted structure), which is what the warm-up protocol needs",
+        not_proved="real weak-memory interleavings, compiler reordering and the first-use race of the *_simple functions are runtime behaviour: exhibited by the ThreadSanitizer stream (16 threads, fresh and warmed-up), not by a theorem; extraction of the call graph / global references from the object files is trusted; SCOPE of obligation (2): static-storage objects only - a write through the const MODULE* / const *_PRECOMP* pointer into the heap object itself (lazily filled field, cast-away const) is excluded by no theorem, only by the TSan stream and the byte snapshots of C18; the q120 product kernels take a non-const precomp pointer and are roots since the extraction also accepts non-const *_precomp first parameters; mt_module exercises about 20 of the API roots",
         level_text="Lean 4 theorem over sequentially consistent interleavings + kernel-decided obligation on the call graph and global-reference sets extracted from the freshly built objects; TSan and per-thread-vs-solo bitwise streams tie it to the real code (partial: runtime memory model not modelled)",
         design_ref="DESIGN.md §5 C12",
         technique="Lean 4 proof (interleaving induction) + kernel-decided reachability over extracted call graph; TSan correspondence",
@@ -206,17 +206,18 @@ PROPS = {
         extra_modules=["SpqProofs.Properties.Cover"],
         variants={"plain": None},
         streams=dict(quick=[("f6_conv", "plain"), ("cv_conv32", "plain")], thorough=[("f6_conv", "plain"), ("cv_conv32", "plain")]),
-        proved="on the bit-exact soft-float model, for every m (through the loop / shuffle structure of each kernel), every divisor 2^j with finite table constants and every input pattern in the stated magnitude domain: from_znx64 exact (cast and add-2^51/or/sub trick, |x|<2^50); to_znx64 ref (|x/d|<2^63) and bnd50 (|x/d|<2^50) within 1/2 of x/d; cplx_from_znx32 / cplx_from_tnx32 exact for every int32 (ref and AVX2 shuffle kernel); cplx_to_tnx32 ref and AVX2 = round(x*2^32/d) mod 2^32 for |x/d|<2^18; reim_to_tnx ref = avx bit-for-bit and x/d - integer within 2^(L-51), result in [-1/2,1/2), for every log2overhead L<=48 with the table recomputed by the model of the constructor; a kernel-checked counterexample showing the wide variant bnd63 misses the 1/2 bound at x = pred(d/2)",
-        not_proved="to_znx64 bnd63 beyond the counterexample (its mantissa-shift extraction is tied by the stream only); reim_to_tnx_basic_ref (rint form) is tied by the stream only; non-finite inputs and log2overhead 49..52 are outside the property",
+        proved="on the bit-exact soft-float model, for every m (through the loop / shuffle structure of each kernel), every divisor 2^j with finite table constants and every input pattern in the stated magnitude domain: from_znx64 exact (cast and add-2^51/or/sub trick, |x|<2^50); to_znx64 ref (|x/d|<2^63) and bnd50 (|x/d|<2^50) within 1/2 of x/d; cplx_from_znx32 / cplx_from_tnx32 exact for every int32 (ref and AVX2 shuffle kernel); cplx_to_tnx32 ref and AVX2 = round(x*2^32/d) mod 2^32 for |x/d|<2^18; reim_to_tnx ref = avx bit-for-bit and x/d - integer within 2^(L-51), result in [-1/2,1/2), for every log2overhead L<=48 with the table recomputed by the model of the constructor; to_znx64_bnd63 / to_znx64_bnd63_wide: the repaired wide kernel (D7) within 1/2 of x/d for |x/d| < 2^52, ties included, and exact up to 2^63; the pre-repair kernel is kept as bnd63OffsetOld with its kernel-checked counterexample at x = pred(d/2); to_tnx_basic_ref_partial (rint form, exact x/d - n, under a no-underflow hypothesis)",
+        not_proved="Inf/NaN inputs are not modelled by Spq.F64 (excluded by the magnitude bounds or by explicit finiteness hypotheses); log2overhead 49..52 are outside the property; to_tnx_basic_ref below the underflow threshold of the quotient (error <= 2^-1075, inside the tolerance) is not covered (_partial); no selection theorem for init_reim_to_znx64_precomp (the (2m) % 4 = 0 hypothesis of the vector kernels is tied to the constructor by the C07 dispatch obligation and the streams); the reim int32 conversions are NOT_IMPLEMENTED stubs in the library (Cover.reim32_all_entry_points_abort)",
         assumptions=COMMON_ASSUME + ["divisor/2., 1./divisor and 2^32/divisor are compiled as IEEE divisions or exact multiplications (bit-identical for powers of two)"],
     ),
     "C15": dict(
         title="Results depend only on arguments: no hidden state, history or alignment",
         module="SpqProofs.Properties.C15",
+        extra_modules=["SpqProofs.Properties.ModHeap"],
         gen=["globals", "caches"],
-        streams=dict(quick=[("ca_prog", "plain"), ("ca_irrelevant", "plain"), ("vz_box", "plain"), ("md_prod", "plain"), ("md_vmp", "plain"), ("ca_small", "plain"), ("big_align", "plain")],
-                     thorough=[("ca_prog", "plain"), ("ca_irrelevant", "plain"), ("vz_box", "plain"), ("vz_norm", "plain"), ("md_prod", "plain"), ("md_vmp", "plain"), ("ca_small", "plain"), ("big_align", "plain")]),
-        proved="history independence of every function with function-local static state (structure extracted from the C source each run): after any call sequence the table in use was built with the call's own values of every table-relevant constructor argument; Gen obligations: every constructor argument is in the cache key, every function referencing mutable static storage is a modelled cache; purity of the limb-vector operations (outputs depend on source cells only)",
+        streams=dict(quick=[("ca_prog", "plain"), ("ca_irrelevant", "plain"), ("vz_box", "plain"), ("md_prod", "plain"), ("md_vmp", "plain"), ("ca_small", "plain"), ("big_align", "plain"), ("cv_misc", "plain")],
+                     thorough=[("ca_prog", "plain"), ("ca_irrelevant", "plain"), ("vz_box", "plain"), ("vz_norm", "plain"), ("md_prod", "plain"), ("md_vmp", "plain"), ("ca_small", "plain"), ("big_align", "plain"), ("cv_misc", "plain")]),
+        proved="history independence of every function with function-local static state (structure extracted from the C source each run): after any call sequence the table in use was built with the call's own values of every table-relevant constructor argument; Gen obligations: every constructor argument is in the cache key, every function referencing mutable static storage is a modelled cache; purity shown for add (add_pure) and, through the C08/C13 spec theorems, for the other limb-vector operations (outputs depend on source cells only) Module layer: the ModHeap theorems (obligations of this check too) give the result region of every FFT64 entry point as a function of the source regions only, independent of the previous content of output and scratch. extraction_nonvacuous: the extraction found at least 15 caches and 15 functions with static state.",
         not_proved="which constructor arguments are table-irrelevant is declared by hand (4 entries) and validated by byte-comparing tables (stream ca_irrelevant); buffer alignment independence is checked by the streams only (all loads are unaligned loads)",
         level_text="Lean 4 invariant proof over the cache state machine whose per-function structure is re-extracted from the C source on every run, plus kernel-decided obligations; rebuild events and outputs compared with the real code over random call programs",
         design_ref="DESIGN.md §5 C15",
@@ -225,10 +226,10 @@ PROPS = {
     "C13": dict(
         title="Supported in-place calls give the same result as out-of-place calls",
         module="SpqProofs.Properties.C13",
-        extra_modules=["SpqProofs.Properties.ModHeap"],
+        extra_modules=["SpqProofs.Properties.ModHeap", "SpqProofs.Properties.C05"],
         streams=dict(quick=[("vz_box", "plain"), ("kz_probe", "plain"), ("vz_norm", "plain"), ("md_prod", "plain"), ("alias_mul", "plain"), ("md_prog", "plain"), ("md_ntt", "plain"), ("mn_model", "plain"), ("mh_arena", "plain")],
                      thorough=[("vz_box", "plain"), ("kz_probe", "plain"), ("vz_norm", "plain"), ("md_prod", "plain"), ("alias_mul", "plain"), ("md_prog", "plain"), ("md_ntt", "plain"), ("mn_model", "plain"), ("mh_arena", "plain")]),
-        proved="call-independence theorems: an aliased call (res==a or res==b, same stride) and a call with separate buffers on the same source data give identical output cells, for add/sub/copy/negate/rotate/automorphism and the big variants, all limb counts (res_size != aliased size included) MODULE LAYER (Properties/ModHeap.lean): vec_znx_idft in place (res == a_dft) = out of place for every (res_size, a_size), any module configuration (vec_znx_idft_inplace_eq_outofplace); znx_small_single_product tolerates res overlapping a and b.",
+        proved="call-independence theorems: an aliased call (res==a or res==b, same stride) and a call with separate buffers on the same source data give identical output cells, for add/sub/copy/negate/rotate/automorphism and the big variants, all limb counts (res_size != aliased size included) MODULE LAYER (Properties/ModHeap.lean): vec_znx_idft in place (res == a_dft) = out of place for every (res_size, a_size), any module configuration (vec_znx_idft_inplace_eq_outofplace); znx_small_single_product tolerates res overlapping a and b. Normalization in place (res == a, same stride): C05.normalize_spec (an obligation of this check too) accepts a = res and gives the same digits and frame as the out-of-place call, under the C05 magnitude domain (|a| <= 2^62, 1 <= k <= 62).",
         not_proved="pointwise products with r==a / r==b at kernel level are covered by the alias_mul stream (bit-exact), not by a theorem (the functional kernel models have no aliasing)",
         level_text="Lean 4 theorems: aliased call = separate-buffer call on identical data for every shape; in-place kernels tied to the real code by the exhaustive probe stream",
         design_ref="DESIGN.md §5 C13",
@@ -236,11 +237,11 @@ PROPS = {
     "C16": dict(
         title="Pipelines of API calls compute the corresponding expression in Z[X]/(X^N+1)",
         module="SpqProofs.Properties.C16",
-        extra_modules=["SpqProofs.Properties.Closed", "SpqProofs.Properties.C16Err"],
-        streams=dict(quick=[("md_prog", "plain"), ("vz_box", "plain")],
-                     thorough=[("md_prog", "plain"), ("vz_box", "plain")]),
+        extra_modules=["SpqProofs.Properties.Closed", "SpqProofs.Properties.C16Err", "SpqProofs.Properties.Bridge"],
+        streams=dict(quick=[("md_prog", "plain"), ("vz_box", "plain"), ("ff_tables", "plain")],
+                     thorough=[("md_prog", "plain"), ("vz_box", "plain"), ("ff_tables", "plain")]),
         proved="coefficient-space fragment, complete: for every layout (N = 2^t, strides >= N, pairwise disjoint variables inside one int64 heap), every straight-line program of add/sub/negate/copy/rotate/automorphism/normalize calls (any length, destination equal to a source or not, any limb counts incl. 0) and every input, if the exact interpreter stays in budget (every stored coefficient fits int64; |normalize input| <= 2^62, k in [1,62]; odd automorphism index) then the heap after running the model of vec_znx.c holds, limb by limb, the exact expression in Z[X]/(X^N+1) (pointwise +-, X^p*a, a(X^p) = sum a_i X^(ip), balanced base-2^k digits), all other cells (padding, other variables) are unchanged and no access was out of bounds (coeff_prog_refines, coeff_prog_output; per-call *_sim derived from the C08/C09/C05 specs). Mixed programs (dft, svp_prepare/apply, vmp_prepare/apply, idft, small product on a second store of opaque objects): prog_refines_partial proves the refinement for every module and every program relative to the record DftOpsSound of per-function exactness facts (dft_exact, svp_exact, vmp_exact, dft_idft_exact, small_product_exact = the C01/C02 theorems) - heap reads with strides, stores, frames, interplay with coefficient-space calls and validity of opaque objects as inputs of later calls are proved; DftOpsSound is shown inhabited (identity-transform module) BINARY64 (Properties/C16Err.lean): the program interpreter run with the binary64 module instance Cfg.parts produces exactly the integer limbs of the exact interpreter for every well-typed program (all ten ops incl. vmp_apply_dft_to_dft) whose DFT-space steps satisfy their per-operation budget (round trip dft->idft: 17 log2(N) u |a|_2 < 1/2; svp / small product: C01Err budget; vmp: C02Err budget) and whose vmp_apply_dft_to_dft reads a raw dft output (SingleProductDepth, decidable): prog_refines_f64_partial, prog_output_f64_partial, dftOpsSound_f64 (DftOpsSound instantiated for the library module), f64_agrees_with_exact_network_partial. The stream md_prog now also sends every program to the Lean program model (driver family pg) and compares the final heap and every DFT variable bit for bit.",
-        not_proved="DftOpsSound is instantiated for the real FFT network in exact arithmetic (Closed: dftOpsSound_network, prog_refines_closed, incl. products of products) and for the library binary64 module (C16Err: dftOpsSound_f64). What remains for binary64: the per-operation budgets carry the proved constants (12 / 17 instead of the property 8 / 16), twiddle accuracy and the underflow side condition are hypotheses, and vmp_apply_dft_to_dft applied to the OUTPUT of svp/vmp (product of products) is outside SingleProductDepth (needs error propagation through a second product). NTT120 big-coefficient programs (int128 limbs) are not in the program model (module-level theorems in C03Mod; md_prog stream). The bridge of the closed coefficient formulas to Mathlib AdjoinRoot is in Properties/Bridge.lean",
+        not_proved="DftOpsSound is instantiated for the real FFT network in exact arithmetic (Closed: dftOpsSound_network, prog_refines_closed, incl. products of products) and for the library binary64 module (C16Err: dftOpsSound_f64). What remains for binary64: the per-operation budgets carry the proved constants (12 / 17 instead of the property 8 / 16), twiddle accuracy and the underflow side condition are hypotheses, and vmp_apply_dft_to_dft applied to the OUTPUT of svp/vmp (product of products) is outside SingleProductDepth (needs error propagation through a second product). NTT120 big-coefficient programs (int128 limbs) are not in the program model (module-level theorems in C03Mod; md_prog stream). Properties/Bridge.lean (an obligation of this check) ties the rotation/automorphism formulas and the NTT-side product formula Q120Ntt.nmul to Mathlib AdjoinRoot (X^N+1); the FFT-side product formula Spq.nmul used by C01/C02/Closed is tied to Prog.polyMul only (same textbook sum, not yet restated over AdjoinRoot)",
         level_text="Lean 4 refinement theorem (simulation by induction on the program) for the whole coefficient-space fragment over the heap model of vec_znx.c; DFT-space extension proved relative to an explicit record of per-function exactness hypotheses; random well-typed programs over the real library (both dispatch masks, aliasing, shapes) checked against an independent 128-bit exact interpreter",
         design_ref="DESIGN.md §5 C16",
         technique="Lean 4 proof (generic simulation theorem + per-call lemmas from C08/C09/C05 specifications) + differential program-level correspondence",
@@ -262,7 +263,7 @@ PROPS = {
                "(ref, fma, sse, avx512) equal the complex-arithmetic definition for every length incl. 0; SIMD = reference in exact arithmetic. "
                "rounding (standard model, unit roundoff u): 1-column dot product in reference and AVX2 order and the convolution window are within "
                "((1+u)^(n+2)-1)*sum(|a c|+|b d|) of the exact sums",
-        not_proved="that binary64 (Spq.F64) satisfies the standard model on the inputs at hand (no overflow/underflow) is not proved: the rounding "
+        not_proved="that Spq.F64 satisfies the standard model is proved from its definition (Numerics: f64_*_std, dot_err_f64_ref/avx2 and _box forms, obligations of this check) under explicit finiteness / no-overflow hypotheses; underflow is excluded by hypothesis: the rounding "
                    "bound is tied to the real code by the r4_arith oracle ((n+2)*2^-52*sum|u||v| against long double) and the bit-exact model; "
                    "no error theorem for the 2-column products and the pointwise fftvec kernels (2-3 roundings each); "
                    "partial overlap of source and destination is not modelled",
@@ -271,10 +272,10 @@ PROPS = {
     "C18": dict(
         title="Read-only operands are never modified",
         module="SpqProofs.Properties.C18",
-        extra_modules=["SpqProofs.Properties.ModHeap"],
+        extra_modules=["SpqProofs.Properties.ModHeap", "SpqProofs.Properties.C05"],
         streams=dict(quick=[("vz_box", "plain"), ("vz_norm", "plain"), ("md_prod", "plain"), ("md_vmp", "plain"), ("md_ntt", "plain"), ("mn_model", "plain"), ("mh_arena", "plain")],
                      thorough=[("vz_box", "plain"), ("vz_norm", "plain"), ("md_prod", "plain"), ("md_vmp", "plain"), ("md_ntt", "plain"), ("mn_model", "plain"), ("mh_arena", "plain")]),
-        proved="unconditional frame theorems: only the nn cells of the first rsz output limbs can change (any offsets, strides, overlap); hence every source cell not aliased with the output, including stride padding, is unchanged MODULE LAYER (Properties/ModHeap.lean): for the nine FFT64 entry points every arena cell outside the result region and the declared scratch is unchanged (sources, prepared scalars/matrices, stride padding); idft_tmp_a: frame = result + the used limbs of its DFT source (the documented exception).",
+        proved="unconditional frame theorems: only the nn cells of the first rsz output limbs can change (any offsets, strides, overlap); hence every source cell not aliased with the output, including stride padding, is unchanged MODULE LAYER (Properties/ModHeap.lean): for the nine FFT64 entry points every arena cell outside the result region and the declared scratch is unchanged (sources, prepared scalars/matrices, stride padding); idft_tmp_a: frame = result + the used limbs of its DFT source (the documented exception). Normalization: C05.normalize_spec (an obligation of this check too) includes the frame (only the nn cells of the first res_size output limbs change); it carries the C05 magnitude hypotheses, unlike the other frame theorems.",
         not_proved="module tables are parameters of the functional kernels in the model (immutable by construction): that the C kernels do not write them is covered by the byte-snapshot streams (ModSnap), not by a theorem",
         level_text="Lean 4 frame theorems for every vec_znx operation with no hypotheses on offsets/strides; whole-arena byte comparison against the real code",
         design_ref="DESIGN.md §5 C18",
